@@ -475,7 +475,11 @@ def program_equivalence(prog1, prog2, compare_params=True, atol=1e-6, rtol=0):
             nx.set_node_attributes(circuit[-1], parameter_mapping, name="p")
 
         # add node attributes to store the operation name
-        name_mapping = {i: n.op.__class__.__name__ for i, n in enumerate(G.nodes())}
+        # a gate and its inverse (dagger) are different operations
+        name_mapping = {
+            i: n.op.__class__.__name__ + (".H" if getattr(n.op, "dagger", False) else "")
+            for i, n in enumerate(G.nodes())
+        }
         nx.set_node_attributes(circuit[-1], name_mapping, name="name")
 
     def node_match(n1, n2):
